@@ -19,7 +19,7 @@ def random_cases(ctx, n, required, **kw):
     for i in range(n):
         r = g.recipe()
         for f in gen.features(r): ctx.region(f)
-        cases.append({"recipe": r, "seed": ctx.rng.randrange(1 << 30), "leaf_str": bool(i % 2), "src": "random"})
+        cases.append({"recipe": r, "seed": ctx.rng.randrange(1 << 30), "leaf_str": bool(i % 2), "src": "random", "style": (i // 2) % 4})
     missing = [f for f in required if not ctx.regions.get(f)]
     if missing:
         raise Machinery("random batch did not reach regions %s" % missing)
@@ -152,10 +152,10 @@ def run_c04(ctx):
     u = universe(ctx.tier, ALLC, leaves=[LEAF("a"), LEAF("b"), LEAF("c")], values=[0, 1, 2, 3], signs=(0, 1),
                  ids=("gen", "exp") if not q else ("gen",), comp=2, kids=3)
     r = ctx.model_check("PuanBuild", u, invariants=["C04"], dump=True, name="Build_C04")
-    cases = spec_cases(ctx, r, vias=["ctor", "from_list", "json", "cicJE"])
+    cases = spec_cases(ctx, r, vias=["ctor", "from_list", "json", "cicJE", "ctor_sub", "ctor_gen"])
     rc = random_cases(ctx, 300 if q else 3000, ["kids>=4", "depth>=3", "explicit_id", "generated_id"] + ["cls_" + c for c in ALLC],
                       ints=False, documented=True, max_box=64, max_kids=5)
-    for c in rc: c["vias"] = ["ctor", "json", "from_list", "cicJE"]
+    for c in rc: c["vias"] = ["ctor", "json", "from_list", "cicJE", "ctor_sub", "ctor_map"]
     cases += rc
     cj = [{"recipe": r, "src": "cicje", "vias": ["cicJE", "ctor"]} for r in cicje_recipes()]
     ctx.region("cicje_shapes", len(cj))
@@ -170,7 +170,7 @@ def run_c05(ctx):
     r = ctx.model_check("PuanBuild", u, invariants=["C05"], dump=True, name="Build_C05")
     cases = spec_cases(ctx, r)
     # two compound siblings (the all-compound and mixed branches of the inward push)
-    u2 = universe(ctx.tier, ["AtLeast"], leaves=[LEAF("a"), LEAF("A"), LEAF("t", -1, 1)], values=[0, 1, 2] if q else [-1, 0, 1, 2, 3],
+    u2 = universe(ctx.tier, ["AtLeast"], leaves=[LEAF("a"), LEAF("u", 0, 2), LEAF("t", -1, 1)], values=[0, 1, 2] if q else [-1, 0, 1, 2, 3],
                   signs=(0,) if q else (0, -1), ids=("gen",), comp=3, kids=2)
     r2 = ctx.model_check("PuanBuild", u2, invariants=["C05"], dump=True, name="Build_C05_siblings")
     cases += spec_cases(ctx, r2)
@@ -238,7 +238,8 @@ def adversarial_handmade():
     a, b, c, x, y = LEAF("a"), LEAF("b"), LEAF("c"), LEAF("x"), LEAF("y")
     out = []
     # fixed findings D4 (regression): same id, different bounds with equal sums / the -1,-2 hash pair
-    for b1, b2 in (((0, 3), (1, 2)), ((-1, 3), (-2, 3)), ((-1, 0), (-2, 0)), ((0, 5), (2, 3)), ((-2, -1), (-1, -2 + 0))):
+    for b1, b2 in (((0, 3), (1, 2)), ((-1, 3), (-2, 3)), ((-1, 0), (-2, 0)), ((0, 5), (2, 3)), ((-2, -1), (-1, -2 + 0)),
+                   ((-1, 10), (-11, 0)), ((1, 23), (12, 3)), ((1, 234), (12, 34)), ((-2, 10), (-21, 0)), ((0, 11), (1, 10)), ((1, 11), (11, 1 + 10))):
         if b2[0] > b2[1]: continue
         out.append(_R("All", _R("Any", LEAF("a", *b1), b, id="B"), _R("Any", LEAF("a", *b2), c, id="C")))
     # generated-id coincidence: children "ab","c" and "a","bc" concatenate to the same id
@@ -272,7 +273,7 @@ def run_c10(ctx):
     r = ctx.model_check("PuanBuild", u2, invariants=["C10"], dump=True, name="Build_C10_adv_neg")
     cases += spec_cases(ctx, r)
     # twins: two definitions of one id (opposite signs over symmetric ranges, different values, bounds with equal sums) under different parents
-    u4 = universe(ctx.tier, ["AtLeast"], leaves=[LEAF("t", -2, 2), LEAF("b"), A(0, 3), A(1, 2)] if not q else [LEAF("t", -2, 2), LEAF("b"), A(0, 3)], values=[-1, 1],
+    u4 = universe(ctx.tier, ["AtLeast"], leaves=[LEAF("t", -2, 2), LEAF("b"), A(0, 3), A(1, 2)] if not q else [LEAF("t", -2, 2), LEAF("b"), A(0, 3)], values=[-2, -1, 1],
                   signs=(1, -1), ids=("exp",) if q else ("gen", "exp"), exp_ids=("P",), comp=2, kids=2)
     r = ctx.model_check("PuanBuild", u4, invariants=["C10"], dump=True, name="Build_C10_twins")
     cases += spec_cases(ctx, r)
@@ -288,11 +289,12 @@ def run_c10(ctx):
 
 # ------------------------------------------------------------------------------------------- C16 / C17
 SERIAL_CLASSES = ALLC + ["ccAny", "ccXor"]
-def serial_cases(ctx, inv):
+def serial_cases(ctx, inv, small=False):
     q = ctx.tier == "quick"
     cases = []
     # every class of the JSON class map, two applications, explicit and generated ids, an integer leaf
-    u = universe(ctx.tier, SERIAL_CLASSES, leaves=[LEAF("a"), LEAF("b"), LEAF("t", -1, 2)], values=[0, 1, 2] if q else [-1, 0, 1, 2], signs=(0, 1) if q else (0, 1, -1),
+    u = universe(ctx.tier, SERIAL_CLASSES, leaves=[LEAF("a"), LEAF("b"), LEAF("t", -1, 2)] if not (q and small) else [LEAF("a"), LEAF("t", -1, 2)],
+                 values=[0, 1, 2] if q else [-1, 0, 1, 2], signs=(0, 1) if q else (0, 1, -1),
                  ids=("gen", "exp"), comp=2, kids=2 if q else 3)
     r = ctx.model_check("PuanBuild", u, invariants=inv, dump=True, name="Build_serial")
     cases += spec_cases(ctx, r)
@@ -334,7 +336,7 @@ def run_c16(ctx):
     ctx.validate()
 
 def run_c17(ctx):
-    cases = serial_cases(ctx, ["C17"])
+    cases = serial_cases(ctx, ["C17"], small=True)
     # configurators over 16-bit integer items: big-M coefficients beyond 16 bits must survive the packing
     W = lambda i, lo, hi: LEAF(i, lo, hi)
     for k, (l1, l2) in enumerate([(W("w", -32768, 32767), W("y", 0, 20000)), (W("w", 0, 30000), W("y", -20000, 5)), (W("w", -32768, 32767), LEAF("a"))]):
@@ -363,7 +365,7 @@ def poly_universe(ctx, invariants, name, nr=2, nc=2, coefs=range(-2, 3), bs=rang
     for k, c in enumerate(cases): c["k"] = k
     return cases
 
-def random_polys(ctx, n, required=("rows>=3", "cols>=3", "nonunit_coef", "zero_coef", "neg_lower", "degenerate_bound", "infeasible_hint")):
+def random_polys(ctx, n, required=("rows>=3", "cols>=3", "nonunit_coef", "zero_coef", "neg_lower", "degenerate_bound", "infeasible_hint", "big_coef")):
     rng = ctx.rng
     out = []
     for k in range(n):
@@ -375,6 +377,14 @@ def random_polys(ctx, n, required=("rows>=3", "cols>=3", "nonunit_coef", "zero_c
             for lo, hi in bounds: size *= hi - lo + 1
             if size <= 600: break
         rows = [[rng.randint(-4, 4)] + [rng.choice([-3, -2, -1, -1, 0, 0, 1, 1, 2, 3]) for _ in range(nc)] for _ in range(nr)]
+        if k % 3 == 0:
+            # big-M sized coefficients, right-hand sides that divide exactly or almost (rounding in the tightening)
+            ctx.region("big_coef")
+            for r in rows:
+                j = rng.randrange(nc)
+                a = rng.choice([-1, 1]) * rng.randint(5, 200)
+                r[1 + j] = a
+                r[0] = a * rng.randint(-1, 2) + rng.choice([0, 0, 1, -1])
         if nr >= 3: ctx.region("rows>=3")
         if nc >= 3: ctx.region("cols>=3")
         if any(abs(x) > 1 for r in rows for x in r[1:]): ctx.region("nonunit_coef")
@@ -498,7 +508,15 @@ def run_c13(ctx):
             cases.append({"x": [x] + [arr(nr, nc) for _ in range(rng.randint(1, 2))], "kind": "3d0", "src": "random"})
         else:
             cases.append({"x": x, "kind": kind, "src": "random"})
-    for f in ("empty_middle_row", "cancelling_row", "rows>=3", "3d"):
+    # priorities beyond 2^53 that differ by less than a float ulp (the results must still fit in 64 bits)
+    for k in range(60 if q else 600):
+        nr, nc = rng.randint(1, 3), rng.randint(2, 5)
+        base = rng.choice([10 ** 18, 2 ** 53, 2 ** 62 - 10, 10 ** 15])
+        x = [[0 if rng.random() < 0.3 else rng.choice([-1, 1]) * (base + rng.randint(0, 3)) for _ in range(nc)] for _ in range(nr)]
+        if not any(v for row in x for v in row): continue
+        ctx.region("wide_values")
+        cases.append({"x": x, "kind": rng.choice(["2d0", "2d1"]), "src": "random"})
+    for f in ("empty_middle_row", "cancelling_row", "rows>=3", "3d", "wide_values"):
         if not ctx.regions.get(f): raise Machinery("random arrays did not reach region " + f)
     ctx.pmap(drivers.drv_compress, _stamp(cases, "drv_compress"))
     if not q: repo_test_events(ctx, ['compress'])
@@ -544,6 +562,8 @@ def cfg_cases(ctx, inv, quick_prios=3):
         for f in gen.features(rr): ctx.region(f)
         cases.append({"recipe": rr, "src": "random", "prios_list": prios_lists(B_leaves(rr), ctx.rng, n=2)})
         n += 1
+    for k, c in enumerate(cases):
+        if k % 3 == 1 and not _has_prefix(c["recipe"]): c["via"] = "json"          # StingyConfigurator.from_json(recipe document)
     return cases
 
 def _rename(r, prefix, memo=None):
@@ -556,6 +576,9 @@ def _rename(r, prefix, memo=None):
     r2["a"] = [_rename(x, prefix, memo) for x in r["a"]]
     if r["id"]: r2["id"] = prefix + r["id"]
     return r2
+
+def _has_prefix(r):
+    return r["c"] != "leaf" and (r.get("f", -1) != -1 or any(_has_prefix(x) for x in r["a"]))
 
 def B_leaves(r):
     from . import build as B
@@ -627,7 +650,9 @@ def api_catalog():
     Cfg3 = _cc("Cfg", _R("AtLeast", t03, b, id="R", v=2), id="cfg")
     Cfg4 = _cc("Cfg", _R("AtLeast", t12, b, id="R", v=2), id="cfg")               # equal bound sums (fixed findings D3/D4)
     CfgG = _cc("Cfg", _cc("ccXor", x, y, d="x"), _R("Imply", _R("All", x), LEAF("z")))
-    return {"M1": M1, "M2": M2, "G1": G1, "CfgD": CfgD, "CfgP": CfgP, "Cfg3": Cfg3, "Cfg4": Cfg4, "CfgG": CfgG}
+    # degenerate parts: a leaf fixed by its bounds, a vacuous threshold ("at most 2 of p, q"), a pre-fixed sub-proposition
+    M3 = _R("All", _R("Any", a, LEAF("k", 1, 1), id="B2"), _R("AtMost", LEAF("p"), LEAF("q"), id="V", v=2), dict(_R("Any", b, c, id="F"), f=1), id="A3")
+    return {"M3": M3, "M1": M1, "M2": M2, "G1": G1, "CfgD": CfgD, "CfgP": CfgP, "Cfg3": Cfg3, "Cfg4": Cfg4, "CfgG": CfgG}
 
 RULES = lambda: [_R("Any", LEAF("p"), LEAF("q"), id="P1"), _cc("ccAny", LEAF("p"), LEAF("q"), LEAF("a"), id="P2", d="p"),
                  _cc("ccXor", LEAF("r"), LEAF("s"), d="r"), _R("Imply", _R("All", LEAF("a")), LEAF("q"), id="P3"),
@@ -707,7 +732,7 @@ def run_histories(ctx, cases):
 def run_c09(ctx):
     q = ctx.tier == "quick"
     cat = api_catalog()
-    pairs = [(cat["M1"], cat["CfgD"]), (cat["CfgD"], cat["CfgP"]), (cat["Cfg3"], cat["Cfg4"]), (cat["G1"], cat["M2"])]
+    pairs = [(cat["M1"], cat["CfgD"]), (cat["CfgD"], cat["CfgP"]), (cat["Cfg3"], cat["Cfg4"]), (cat["G1"], cat["M2"]), (cat["M3"], cat["M3"])]
     if not q: pairs += [(cat["CfgP"], cat["CfgD"]), (cat["Cfg4"], cat["Cfg3"]), (cat["CfgG"], cat["M1"]), (cat["M1"], cat["M1"])]
     rules = RULES()[:2] if q else RULES()[:4]
     # the intended design is pure; the as-implemented machine (named deviation) is not: TLC finds the purity counterexample itself
@@ -748,7 +773,8 @@ def run_c18(ctx):
     CfgN = _cc("Cfg", _R("All", S_, c, id="T"), id="cfgn")          # S is a NESTED sub-proposition: adding a rule named S is legitimate
     cat["CfgN"] = CfgN
     pairs = [(cat["CfgD"], cat["CfgG"]), (CfgN, cat["CfgD"])]
-    rules = (RULES() if not q else RULES()[:4]) + [S_, _R("All", S_, LEAF("q"), id="T")]
+    R_ = RULES()
+    rules = (R_ if not q else R_[:3] + [R_[4]]) + [S_, _R("All", S_, LEAF("q"), id="T")]      # R_[4] re-uses the id of an existing top-level rule
     states = api_histories(ctx, "API_add", pairs, ["add", "cfg_poly"] if q else ["add", "cfg_poly", "select"], 3, rules)
     cases = history_cases(ctx, states, [cat["CfgD"], cat["CfgG"], CfgN])
     cases = [c for c in cases if any(x["op"] == "add" for x in c["calls"])]
@@ -777,7 +803,7 @@ PROPS = {
     "C04": {"run": run_c04, "clauses": {"leaves_same", "table_complete", "truthfn", "truthfn_struct", "id_kept", "gen_flag", "no_exception"}},
     "C05": {"run": run_c05, "clauses": {"points_complete", "complement", "complement_struct", "safe_kept", "id_kept", "no_exception"}},
     "C06": {"run": run_c06, "clauses": {"dom_ok", "sound", "top_equal", "eqb_exact", "taut", "contra", "no_exception"}},
-    "C07": {"run": run_c07, "clauses": {"rest_complete", "equiv_union", "equiv_struct", "bounds_contain", "ids_kept", "no_exception"}},
+    "C07": {"run": run_c07, "clauses": {"result_stable", "rest_complete", "equiv_union", "equiv_struct", "bounds_contain", "ids_kept", "no_exception"}},
     "C08": {"run": run_c08, "clauses": {"rest_complete", "equiv", "equiv_struct", "no_const_inside", "ids_kept", "no_exception"}},
 }
 
